@@ -396,10 +396,18 @@ func (l *NDNLPLinkService) reassemblePacket(
 	fragIndex uint64,
 	fragCount uint64,
 ) enc.Wire {
-	_, hasSequence := l.partialMessageStore[baseSequence]
+	// FragIndex and FragCount come from the peer: never index or allocate by them unchecked
+	if fragIndex >= fragCount || fragCount > defn.MaxNDNPacketSize {
+		core.LogWarn(l, "Received NDNLPv2 frame with invalid fragmentation fields - DROP")
+		return nil
+	}
+	existing, hasSequence := l.partialMessageStore[baseSequence]
 	if !hasSequence {
 		// Create map entry
 		l.partialMessageStore[baseSequence] = make([][]byte, fragCount)
+	} else if uint64(len(existing)) != fragCount {
+		core.LogWarn(l, "Received NDNLPv2 fragment whose FragCount differs from earlier fragments - DROP")
+		return nil
 	}
 
 	// Insert into PartialMessageStore
